@@ -140,6 +140,13 @@ func NewReadOnly(backing io.ReaderAt, idx index.Index, opts ...carv2.Option) (*R
 func readVersion(at io.ReaderAt, opts ...carv2.Option) (uint64, error) {
 	var rr io.Reader
 	switch r := at.(type) {
+	case io.ReadSeeker:
+		// The backing is used as an io.ReaderAt, which has no position: the archive starts at
+		// offset 0 wherever the read position of a backing that also is an io.Reader happens to be.
+		if _, err := r.Seek(0, io.SeekStart); err != nil {
+			return 0, err
+		}
+		rr = r
 	case io.Reader:
 		rr = r
 	default:
